@@ -114,6 +114,45 @@ func loadAll(cfg *runConfig) (*Program, error) {
 			}
 		}
 	}
+	// the assumed summary `passes-test` of the .iterator slots rests on a proved clause of the same
+	// label in every closure a step query stores there
+	for name, f := range p.Funcs {
+		par := f.Parent()
+		if par == nil || par.Signature.Recv() == nil || par.Name() != "Select" {
+			continue
+		}
+		pt, ok := par.Signature.Recv().Type().Underlying().(*types.Pointer)
+		if !ok {
+			continue
+		}
+		st, ok := pt.Elem().Underlying().(*types.Struct)
+		if !ok {
+			continue
+		}
+		hasIt, hasPred := false, false
+		for i := 0; i < st.NumFields(); i++ {
+			switch st.Field(i).Name() {
+			case "iterator":
+				hasIt = true
+			case "Predicate":
+				hasPred = true
+			}
+		}
+		if !hasIt || !hasPred || f.Signature.Params().Len() != 0 || f.Signature.Results().Len() != 1 || typeStr(f.Signature.Results().At(0).Type()) != "NodeNavigator" {
+			continue
+		}
+		ok = false
+		if fc := ctr.Funcs[name]; fc != nil {
+			for _, cl := range fc.clauses("ensures") {
+				if cl.Label == "passes-test" {
+					ok = true
+				}
+			}
+		}
+		if !ok {
+			return nil, fmt.Errorf("iterator closure %s of a step query has no proved `ensures[passes-test...]` clause (the .iterator slot contract assumes one)", name)
+		}
+	}
 	// contracts must name existing functions
 	for name := range ctr.Funcs {
 		if p.Funcs[name] == nil {
